@@ -241,6 +241,11 @@ def run_app(sc, choices=None, world_hook=None):
                     w.k.stop_tracing()
             run.t_end = w.k.now
             run.seq_end = w.k.seq
+            if sc.get("linger") and not run.aborted:
+                try:
+                    w.k.sleep(int(sc["linger"]))  # let virtual time pass: nothing of the run may still be active
+                except SimAbort:
+                    run.aborted = w.k.abort_reason
             run.open_sockets_at_return = [s.fd for s in w.net.sockets if not s.closed]
             run.live_threads_at_return = [t.name for t in w.lib_threads if t.is_alive() and t is not closer_thread]
             run.sock_attr_none = app.sock is None
